@@ -533,7 +533,17 @@ def c11_history(case, obs, flavor):
             active = set(o["C"])
             continue
         segs, tail = _segments(o["T"])
-        for seg in segs + ([tail] if tail else []):
+        segs = segs + ([tail] if tail else [])
+        if step == 0 and segs:
+            # start(): the initial entry is not a transition and reports no `#t:`; its `en:` records lead the first
+            # segment. They are applied first, so that an eventless transition taken right after them sees (and
+            # records the history of) the states the initial entry activated.
+            k = 0
+            while k < len(segs[0]) and _name_of(segs[0][k]).startswith("en:"):
+                k += 1
+            if 0 < k < len(segs[0]) and any(_name_of(r).startswith("ex:") for r in segs[0][k:]):
+                segs = [segs[0][:k], segs[0][k:]] + segs[1:]
+        for seg in segs:
             before = set(active)
             exits = [_sid(mid, _name_of(r)[3:]) for r in seg if _name_of(r).startswith("ex:")]
             enters = [_sid(mid, _name_of(r)[3:]) for r in seg if _name_of(r).startswith("en:")]
